@@ -39,7 +39,7 @@ pub fn pick_buffer(rng: &mut Rng) -> i64 {
 }
 
 pub fn all_yields() -> Vec<String> {
-    vec!["process.after_parse".into(), "process.after_execute".into(), "app.static_matched".into()]
+    vec!["process.after_parse".into(), "process.after_execute".into(), "app.static_matched".into(), "file_io".into()]
 }
 
 /// random subset of the stage yield points ("buggify": a random subset of sites per run)
@@ -386,7 +386,15 @@ pub fn mutated_request(rng: &mut Rng, base_target: &str, buf: usize) -> (&'stati
         42 => ("origin_hostile", req("GET", t, &[("Origin", "http://a.example\rX-Injected: 1"), ("Access-Control-Request-Headers", "x\0y")], b"")),
         43 => ("duplicate_headers", format!("GET {} HTTP/1.1\r\nHost: a\r\nHost: b\r\nRange: bytes=0-1\r\nRange: bytes=2-3\r\nContent-Length: 1\r\nContent-Length: 2\r\n\r\nab", t).into_bytes()),
         44 => ("query_odd", get(&format!("{}?{}", t, rng.pick(&["a=b=c", "&&&", "%", "a=%", "=", "\u{fc}=\u{fc}", "a[]=1&a[]=2", "x=1?y=2"])))),
-        _ => ("builtin", get(*rng.pick(&["/", "/style.css", "/script.js", "/favicon.svg", "/404.html", "/index.html"]))),
+        _ => {
+            let route = *rng.pick(&["/", "/style.css", "/script.js", "/favicon.svg", "/404.html", "/index.html"]);
+            if rng.chance(1, 2) {
+                let m = *rng.pick(&["GET", "GET", "HEAD", "OPTIONS"]);
+                ("builtin_with_range", req(m, route, &[("Range", *rng.pick(&["bytes=0-9", "bytes=5-", "bytes=-7", "bytes=0-1,4-5", "bytes=99999-"]))], b""))
+            } else {
+                ("builtin", get(route))
+            }
+        }
     }
 }
 
@@ -524,6 +532,9 @@ pub fn transport_fault(rng: &mut Rng, c: &mut Conn, enabled: &[&str]) {
         }
         "handler_err" => {
             c.faults.handler_err = true;
+        }
+        "handler_panic" => {
+            c.faults.handler_panic = Some(rng.chance(1, 2));
         }
         _ => {}
     }
